@@ -130,13 +130,16 @@ func ProbeLookupAlignment() (string, int) {
 	}
 	defer a.Close()
 	n := 0
-	for _, off := range []int{0, 8, 16, 24, 40} {
+	for _, off := range []int{0, 8, 16, 24, 40, -1} { // -1: the table ends exactly at the inaccessible page
 		for _, proj := range []bool{false, true} {
 			stride, nl := 64, 2
 			if proj {
 				stride, nl = 0x68, 3
 			}
-			base, acc := a.At(off)
+			base, acc := a.At(off & 0xff)
+			if off < 0 {
+				base, acc = a.Before(15 * stride)
+			}
 			// entry s, coordinate c, limb l = tag
 			for s := 0; s < 15; s++ {
 				for c := 0; c < nl; c++ {
